@@ -887,6 +887,8 @@ class Selection:
         if all(conc(d) for d in self.shape):
             cells = list(itertools.product(*[range(d) for d in self.shape]))
             vals = [self.mreader(list(c)) for c in cells]
+            if getattr(ctx.cur(), "concretize_masks", False) and len(cells) <= 64:
+                vals = [v if isinstance(v, bool) else bool(ctx.cur().truth(v)) for v in vals]
             if all(isinstance(v, bool) for v in vals):
                 self.concrete = [c for c, v in zip(cells, vals) if v]
                 self.N = len(self.concrete)
